@@ -26,8 +26,16 @@ def _guard_block(st, flag, call):
         raise T.TranslateError(f"run(): body of the `{flag}` guard is not `self.{call}(); self.{flag} = True`")
 
 
+def _norm_tree(rel):
+    import copy
+    from .c18stranslate import Norm
+    tree, _ = T.load(rel)
+    tree = Norm().visit(copy.deepcopy(tree)); ast.fix_missing_locations(tree)
+    return tree
+
+
 def site_run():
-    tree, _ = T.load(BASE)
+    tree = _norm_tree(BASE)
     fn = T.find_def(tree, "FrameField.run")
     sts = [b for b in fn.body if not (isinstance(b, ast.Expr) and isinstance(b.value, ast.Call) and dotted(b.value.func) == "self.log")
            and not (isinstance(b, ast.Expr) and isinstance(b.value, ast.Constant))]
@@ -47,11 +55,11 @@ def site_run():
     # the concrete initialize() methods set the flag themselves (so that run() after initialize() skips the first step)
     sets = {}
     for rel, cls in ((FACES, "FrameField2DFaces"), (VERTS, "FrameField2DVertices")):
-        t2, _ = T.load(rel)
+        t2 = _norm_tree(rel)
         f2 = T.find_def(t2, f"{cls}.initialize")
         last = f2.body[-1]
         sets[cls] = (isinstance(last, ast.Assign) and dotted(last.targets[0]) == "self.initialized" and isinstance(last.value, ast.Constant) and last.value.value is True)
-        calls = [dotted(b.value.func) for b in f2.body if isinstance(b, ast.Expr) and isinstance(b.value, ast.Call)]
+        calls = [dotted(b.value.func) for b in f2.body if isinstance(b, ast.Expr) and isinstance(b.value, ast.Call) and dotted(b.value.func) != "self.log"]
         if calls[:2] != ["self._initialize_attributes", "self._initialize_variables"]:
             raise T.TranslateError(f"{cls}.initialize does not call _initialize_attributes(); _initialize_variables()")
     return {"initSetsFlagFaces": sets["FrameField2DFaces"], "initSetsFlagVertices": sets["FrameField2DVertices"]}
@@ -103,8 +111,8 @@ def site_reuse():
 
 
 def site_faces_flag():
-    tree, _ = T.load(FACES)
-    fn = T.find_def(tree, "_BaseFrameField2DFaces.flag_singularities")
+    from .c18stranslate import load_fn          # normalised tree (see c18stranslate.Norm)
+    fn = load_fn(FACES, "_BaseFrameField2DFaces.flag_singularities")
     eloop = _one([s for s in fn.body if isinstance(s, ast.For) and isinstance(s.iter, ast.Call) and dotted(s.iter.func) == "enumerate"
                   and dotted(s.iter.args[0]) == "self.mesh.edges"], "loop over edges")
     skip = [s for s in eloop.body if isinstance(s, ast.If) and len(s.body) == 1 and isinstance(s.body[0], ast.Continue)]
@@ -137,7 +145,7 @@ def site_faces_flag():
     if ast.unparse(start.value).replace(" ", "") != "self.defect[v]":
         raise T.TranslateError("the holonomy sum does not start from self.defect[v]")
     wr = _one([s for s in vloop.body if isinstance(s, ast.If)], "write guard")
-    if ast.unparse(wr.test).replace(" ", "") != "abs(angle)>ZERO_THRESHOLD":
+    if ast.unparse(wr.test).replace(" ", "") not in ("abs(angle)>ZERO_THRESHOLD", "ZERO_THRESHOLD<abs(angle)"):
         raise T.TranslateError("write guard is not abs(angle) > ZERO_THRESHOLD")
     return {"fst": fst, "snd": snd}
 
@@ -182,15 +190,15 @@ def site_normalize_loop():
     tree, _ = T.load(BASE)
     fn = T.find_def(tree, "FrameField.normalize")
     loop = _one([s for s in fn.body if isinstance(s, ast.For)], "loop of normalize")
-    if ast.unparse(loop.iter).replace(" ", "") != "range(self.var.size)" or dotted(loop.target) != "i":
+    if ast.unparse(loop.iter).replace(" ", "") not in ("range(self.var.size)", "range(len(self.var))") or not isinstance(loop.target, ast.Name):
         raise T.TranslateError("normalize does not loop over range(self.var.size)")
     iff = _one([s for s in loop.body if isinstance(s, ast.If)], "guard of normalize")
     from .c18translate import is_self_division
     b = iff.body[0]
     tgt = b.target if isinstance(b, ast.AugAssign) else (b.targets[0] if isinstance(b, ast.Assign) else None)
     if not (len(iff.body) == 1 and not iff.orelse and is_self_division(b) and tgt is not None
-            and ast.unparse(tgt).replace(" ", "") == "self.var[i]"
-            and ast.unparse(iff.test.left).replace(" ", "") == "abs(self.var[i])"):
+            and ast.unparse(tgt).replace(" ", "") == f"self.var[{loop.target.id}]"
+            and f"abs(self.var[{loop.target.id}])" in (ast.unparse(iff.test.left).replace(" ", ""), ast.unparse(iff.test.comparators[0]).replace(" ", ""))):
         raise T.TranslateError("normalize body is not `if abs(var[i]) > T: var[i] /= abs(var[i])`")
     return {"everyIndex": True}
 
